@@ -189,6 +189,12 @@ func (x *c01) run(kind, keyHint, src string, b map[string]any, maxColl int, bdes
 
 func runC01(c *core.Ctx) {
 	x := &c01{c: c, e: liquid.NewEngine()}
+	RegisterCustom(x.e) // application tags and blocks: the render.Context methods are reachable only through them
+	// a.html exists next to the (pathless) templates, so that include / RenderFile get past the read
+	if dir := filepath.Join(c.WorkDir, fmt.Sprintf("c01-%02d", c.Shard)); os.MkdirAll(dir, 0o755) == nil && os.Chdir(dir) == nil {
+		os.WriteFile(filepath.Join(dir, "a.html"), []byte("[a.html {{ x }} {{ xlocal }}{% if t %} {{ s | upcase }}{% endif %}]"), 0o644)
+		defer os.RemoveAll(dir)
+	}
 	x.typeSequences()
 	x.filterMatrix()
 	x.operatorMatrix()
@@ -436,7 +442,24 @@ func (x *c01) hostile() {
 		case i < len(inject):
 			src, kind = inject[i], "inject"
 		default:
-			switch r.Intn(10) {
+			switch r.Intn(13) {
+			case 10, 11:
+				src, kind = customSource(r.Intn), "custom-tags"
+				if r.P(1, 4) {
+					src, kind = gen.Mutate(r, src, corpus), "mutated-custom-tags"
+				}
+			case 12:
+				// string literals whose body is any text without the quote: Liquid has no escapes, a backslash is a character
+				q := "\"'"[r.Intn(2)]
+				lit := func() string { return string(q) + gen.RandLiteralBody(r, q) + string(q) }
+				forms := []string{"{{ %s }}", "{{ %s | append: %s }}", "{%% if s == %s %%}T{%% endif %%}", "{%% assign v = %s %%}{{ v | size }}", "{{ s | replace: %s, %s }}", "{%% case %s %%}{%% when %s %%}W{%% endcase %%}",
+					"{{ m[%s] }}", "{%% include %s %%}", "{%% for i in (1..2) %%}{%% cycle %s, %s %%}{%% endfor %%}", "{{ a | join: %s }}{{ %s | split: %s | size }}"}
+				f := forms[r.Intn(len(forms))]
+				var args []any
+				for k := strings.Count(f, "%s"); k > 0; k-- {
+					args = append(args, lit())
+				}
+				src, kind = fmt.Sprintf(f, args...), "string-literals"
 			case 0:
 				src, kind = gen.RandBytes(r, r.Intn(257)), "bytes"
 			case 1, 2:
